@@ -1556,6 +1556,18 @@ def c14(ctx):
         files2 = {nm: ("package a\n\nfunc f() {\n\tcall(obj, mk())\n}\n" if "bad" in nm else f"package a\n\nfunc g{j}() {{\n\tcall(obj, Name{j})\n}}\n") for j, nm in enumerate(names)}
         scen.append(Scenario(f"rerr2_{pos}", ["@@\nvar recv, name expression\n@@\n-call(recv, name)\n+recv.name()\n"], files2,
                              "site-dependent rewrite error before a file where the change applies"))
+    # one directory, two packages (a package and its external tests), patches guarded by a package clause: what a file's
+    # neighbours are called or contain does not decide about it
+    for gi, (pk, first) in enumerate((("store_test", "a_"), ("store_test", "z_"), ("store", "a_"), ("store", "z_"))):
+        gp = f"@@\nvar x expression\n@@\n package {pk}\n\n-setup(x)\n+setupT(x)\n"
+        other = "store" if pk == "store_test" else "store_test"
+        files = {f"s/{first}other.go": f"package {other}\n\nfunc f() {{ setup(1) }}\n",
+                 f"s/m_wanted.go": f"package {pk}\n\nfunc g() {{ setup(2) }}\n",
+                 f"s/{'z_' if first == 'a_' else 'a_'}more.go": f"package {other}\n\nfunc h() {{ setup(3) }}\n",
+                 "t/only.go": f"package {pk}\n\nfunc k() {{ setup(4) }}\n"}
+        scen.append(Scenario(f"twopkg{gi}", [gp], files, "two packages in one directory, package-guarded patch"))
+        scen.append(Scenario(f"twopkg{gi}b", [gp, "@@\nvar x expression\n@@\n package " + other + "\n\n-setup(x)\n+setupO(x)\n"], files,
+                             "two packages in one directory, one guarded patch for each"))
     scen += corpus_scenarios("C14")
     optsets = [["print"], ["diff"], [], ["print", "sg"], ["si"], ["print", "si"]]
     def one(sc):
@@ -2219,6 +2231,62 @@ def diag_of(line):
 def strip_api(line):
     return re.sub(r" \(api \w+\)\)$", ")", line).replace("(diag ok)", "(diag pass)")
 
+def c19_several_faults(ctx, rng):
+    """a fault in the metavariable section of several changes of one patch: every one is reported at its own place"""
+    n = 40 if ctx.tier == "quick" else 1500
+    fcs = []
+    for k in range(n):
+        lines, expects = [], []
+        nch = rng.randint(2, 4)
+        faulty = sorted(rng.sample(range(nch), rng.randint(2, nch)))
+        for ci in range(nch):
+            for _ in range(rng.randint(0, 2)):
+                lines.append(rng.choice(["# a comment", "#", "   # indented"]) if ci == 0 else rng.choice(["", "# a comment", "#"]))
+            lines.append(rng.choice(["@@", f"@ ch{ci} @"]))
+            lines.append(f"var a{ci} expression")
+            if ci in faulty:
+                for _ in range(rng.randint(0, 2)):
+                    lines.append(rng.choice(["", "# c", "// a Go comment", f"var ok{ci} identifier"]))
+                ind = " " * rng.randint(0, 2)
+                if rng.random() < 0.5:
+                    lines.append(ind + f"var zq{ci} identifer")
+                    expects.append((len(lines), len(ind) + 9))
+                else:
+                    lines.append(ind + f"var zq{ci}, zq{ci} expression")
+                    expects.append((len(lines), len(ind) + 10))
+            lines.append("@@")
+            lines += [f"-foo{ci}(a{ci})", f"+bar{ci}(a{ci})", ""]
+        fcs.append({"id": f"mf{k}", "patch": "\n".join(lines), "expects": expects})
+    res = run_front(ctx, fcs)
+    cli_budget = 12 if ctx.tier == "quick" else 200
+    for c, impl, model in res:
+        ctx.evaluations += 1
+        ctx.count("several_faults")
+        ctx.nontrivial.add(c["patch"])
+        stage, diags = diag_of(impl)
+        mstage, mdiags = diag_of(model)
+        got = {(d[0], d[1]) for d in diags}
+        missing = [e for e in c["expects"] if (str(e[0]), str(e[1])) not in got]
+        probs = []
+        if missing:
+            probs.append(f"faults at {missing} are not reported at their place (reported: {sorted(got)})")
+        if (stage, sorted(diags)) != (mstage, sorted(mdiags)):
+            probs.append(f"diagnostics differ from the specification: implementation {stage} {diags}, model {mstage} {mdiags}")
+        if cli_budget > 0:
+            cli_budget -= 1
+            root = ctx.scratch("c19mf")
+            cl.write_tree(root, {"p.patch": c["patch"], "a.go": "package a\n\nfunc f() { foo0(1) }\n"})
+            code, out, err = cl.gopatch(ctx.gopatch, root, ["-p", "p.patch", "."])
+            e = err.decode("utf-8", "replace")
+            ctx.evaluations += 1
+            lost = [x for x in c["expects"] if f"p.patch:{x[0]}:{x[1]}" not in e]
+            if code == 0 or lost:
+                probs.append(f"CLI: exit {code}; positions {lost} are missing from stderr {e.strip()[:300]!r}")
+            shutil.rmtree(root, ignore_errors=True)
+        if probs:
+            ctx.violation("; ".join(probs[:3]), {"input": {"patch": c["patch"], "injected_at": c["expects"]}, "implementation": impl[-600:],
+                                                  "model": model[-600:], "reproduce": "gopatch -p p.patch ."})
+
 @prop("C19")
 def c19(ctx):
     ctx.rule = ("multi-change patches (1..4 changes assembled from generated single-change patches, with random '#' and blank lines "
@@ -2231,6 +2299,7 @@ def c19(ctx):
                 "Non-trivial = a fault was injected; distinct = distinct patch text.")
     rng = random.Random(ctx.seed)
     n = 300 if ctx.tier == "quick" else 20000
+    c19_several_faults(ctx, random.Random(ctx.seed + 19))
     fcs = front_cases_with_faults(ctx, rng, n)
     res = run_front(ctx, fcs)
     cli_budget = 25 if ctx.tier == "quick" else 400
@@ -3134,6 +3203,8 @@ def chain_check(ctx, c, how):
         for i, ch in enumerate(chain):
             with open(os.path.join(d, f"c{i}.patch"), "w") as f:
                 f.write(ch)
+    # a change that occurs twice in the chain is the same patch file named twice
+    name = [f"c{chain.index(ch)}.patch" for ch in chain]
     stdin = None
     if how == "one-file":
         with open(os.path.join(comb, "all.patch"), "w") as f:
@@ -3143,14 +3214,14 @@ def chain_check(ctx, c, how):
         args, stdin = [], "\n".join(chain).encode()
     elif how == "list":
         with open(os.path.join(comb, "list.txt"), "w") as f:
-            f.write("".join(f"c{i}.patch\n" for i in range(len(chain))))
+            f.write("".join(f"{name[i]}\n" for i in range(len(chain))))
         args = ["-P", "list.txt"]
     elif how == "mixed" and len(chain) >= 2:
         with open(os.path.join(comb, "list.txt"), "w") as f:
-            f.write("".join(f"c{i}.patch\n" for i in range(1, len(chain))))
+            f.write("".join(f"{name[i]}\n" for i in range(1, len(chain))))
         args = ["-p", "c0.patch", "-P", "list.txt"]
     else:
-        args = [x for i in range(len(chain)) for x in ("-p", f"c{i}.patch")]
+        args = [x for i in range(len(chain)) for x in ("-p", name[i])]
     code, out, err = cl.gopatch(ctx.gopatch, comb, args + ["a.go"], stdin=stdin)
     seq_fail = None
     for i in range(len(chain)):
@@ -3211,6 +3282,13 @@ def c09(ctx):
             for w in json.load(open(cpath)):
                 for how_ in (("flags", "one-file") if cname == "seeded_chains.json" else (w.get("how", "flags"),)):
                     todo.append(({"id": w["id"] + "/" + how_, "chain": w["chain"], "src": w["src"]}, how_))
+    # the same patch given twice, with one in between that produces what it matches: it is applied twice
+    dup = ["@@\nvar x expression\n@@\n-oldLog(x)\n+newLog(x)\n", "@@\nvar x expression\n@@\n-report(x)\n+oldLog(x)\n"]
+    for how_ in ("list", "flags", "mixed", "one-file", "stdin"):
+        todo.append(({"id": "dup/" + how_, "chain": [dup[0], dup[1], dup[0]],
+                      "src": "package a\n\nfunc f(n int) {\n\toldLog(n)\n\treport(n + 1)\n}\n"}, how_))
+        todo.append(({"id": "dup2/" + how_, "chain": [dup[1], dup[0], dup[1], dup[0]],
+                      "src": "package a\n\nfunc f(n int) {\n\toldLog(n)\n\treport(report(n + 1))\n}\n"}, how_))
     # a chain with a failing step
     todo.append(({"id": "failstep", "chain": ["@@\nvar x expression\n@@\n-foo(x)\n+bar(x)\n", "@@\nvar x expression\n@@\n-bar(x)\n+baz.x\n"],
                   "src": "package a\n\nfunc f() {\n\tfoo(g(1))\n}\n"}, "flags"))
